@@ -34,11 +34,11 @@ TEXTS = {
         "technique": "Lean 4 proof of sub-claims + metamorphic oracle",
     },
     "C05": {
-        "text": "Lean theorem for the rendering of first-token counters; block structure itself decided by a generator-marked structure "
+        "text": "Lean theorems about the exact model of the search, for every input (Proofs/SearchFirstToken, SearchChildLines): format_line_starting_ws (the solution the search returns for a line starts at exactly the line's level, 0 continuations: an invariant of the heap loop - every node carries the root's starting whitespace and root decision - through get_potential_solution, the indifference and successor loops and the binary-heap operations), format_line_first_decision (the first decision is a break with 0 continuations unless the line may not break at its start: first token of the file, or a comment sharing its line with code), searchSolve_first_token / wrapStageFull_first_token (through the whole wrapper stage the first token of every line whose wrapping succeeds ends with 1 or 2 line breaks, indentation = the line's level, no continuation, no spaces), line_start_rendering (so the reconstructor emits it first on its own line behind exactly level indentation units), format_line_children / wrapStageFull_children (every child solution at every depth starts from whitespace derived from its parent's: TreeOk), begin_always_wrap_partial (under begin_style=always_wrap the options offered for a then/do/else/case-arm begin are all 'break'). Lean theorem for the rendering of first-token counters; block structure itself decided by a generator-marked structure "
                 "oracle (first-on-line, one unit deeper than the opener's line, closers at the opener's indentation, begin under "
                 "always_wrap) on every generated program (partial). The parser's control flow (which decides lines and levels) is an exact Lean model compared with the real parser on every case (pfull stream), and so are the consolidators (cl) and the wrapper stage around the search (wp).",
         "design_ref": "DESIGN.md section 5 (C05), 12.2",
-        "note": "That the modelled grammar puts the statements of the property on lines of the stated levels is decided by the structure oracle, not by a theorem. Known findings F21, F32.",
+        "note": "The link from a line's level to its rendered indentation is a theorem (through the search); that the modelled grammar gives the statements of the property lines of the stated levels is decided by the structure oracle and the pfull correspondence, not by a theorem. Known findings F21, F32.",
         "technique": "Lean 4 proof of rendering + specification-level oracle from the generator's AST marks",
     },
     "C06": {
@@ -89,7 +89,7 @@ TEXTS = {
     "C08": {
         "text": "Lean theorems on the reconstructor for every token list with canonical counters: gap shape (none/one space, or 1-2 breaks "
                 "plus whole indentation units), whole-unit indentation, end-of-file newline, spacing rule values <= 1, and after TokenSpacing no token is preceded by more than one space whatever the original spacing (spacing_at_most_one, via layout invariance). Exact models of the "
-                "rules feeding the counters are differentially checked; a line-scanner oracle checks the real output of every case. no_spaces_at_line_start: for every search the exact model of the wrapper stage (wp/wcn correspondence) leaves no spaces before a token that starts a line. C08_format_full_checked / canonical_counters_after_stage: for the closed model of the whole formatter (search inside) the output is the reconstruction of a state in which every token not kept verbatim has canonical counters (at most two line breaks, no spaces at a line start, no indentation without a line break, at most one space otherwise), whatever the search returned, whenever the decidable premise canonPremisesB holds (at most one space per token before the stage; every token written by a first-phase solution or by the end-of-file rule) - tallied on every case of the full stream (info_c08); it fails exactly on lines without a wrapping solution (F34).",
+                "rules feeding the counters are differentially checked; a line-scanner oracle checks the real output of every case. no_spaces_at_line_start: for every search the exact model of the wrapper stage (wp/wcn correspondence) leaves no spaces before a token that starts a line. C08_format_full_checked / canonical_counters_after_stage: for the closed model of the whole formatter (search inside) the output is the reconstruction of a state in which every token not kept verbatim has canonical counters (at most two line breaks, no spaces at a line start, no indentation without a line break, at most one space otherwise), whatever the search returned, whenever the decidable premise canonPremisesB holds (at most one space per token before the stage; every token written by a first-phase solution or by the end-of-file rule) - tallied on every case of the full stream (info_c08); it fails exactly on lines without a wrapping solution (F34). Byte level (Proofs/ReconBytes): for every token state satisfying the decidable predicate CanonState (canonical counters, no line break and no leading/trailing blank inside token texts, first token at the start) the five clauses of the property hold of the bytes of reconstruct: output_lines (the output is its lines joined by the line ending, uniquely), no_trailing_blank, at_most_one_space (between two token texts: nothing, one space, or a line break followed by indentation), no_double_blank_line (never three consecutive terminators, none at the start), line_indentation_whole_units, ends_with_one_terminator; segment_clauses for runs between verbatim tokens; C08_bytes_full_checked composes them with the closed model.",
         "design_ref": "DESIGN.md section 5 (C08), 12.2, 12.8",
         "note": "Known findings F5, "
                 "F6, F13, F14, F15 are recorded classes. Trusted: Lean kernel, translator, harness, model.",
